@@ -20,7 +20,8 @@ CHECKS.update({
  'C02': dict(text="Theorem C02_faithful (Coq): for every valid history on the undirected model (any orientation per call, any size, any label type) the run ends normally, the "
                   "symmetric invariant holds and hasEdge (both orientations), neighbour lists, edge count, getDegree (both self-loop conventions), edges() and labels equal the "
                   "unordered-pair spec; C02_removals_exact states what each removal must not change; C02_degree / C02_adjacency_matrix(_symmetric) / C02_all_observers: degrees, the symmetric matrix in both self-loop "
-                  "conventions and the model's whole observation vector equal what the spec gives. Tied to /repo by differential execution of seeded histories with all observers compared.",
+                  "conventions and the model's whole observation vector equal what the spec gives. Tied to /repo by differential execution of seeded histories with all observers compared, "
+                  "and of undirected graphs built from directed ones by the converting constructor (C09's theorems are the proof side of that part).",
              note=TB + "Modelled, not verified: std::list/vector/unordered_map as lists and association lists.",
              tech="Coq refinement proof (model -> unordered-pair spec) + differential correspondence check", ref="DESIGN.md §6 C02"),
  'C03': dict(text="Theorems C03_directed_labels / C03_undirected_labels (Coq): after any valid history getEdgeLabel (throwing and not) and hasEdge(i,j,l) answer exactly from the spec, "
@@ -31,7 +32,7 @@ CHECKS.update({
  'C08': dict(text="Theorems C08_* (Coq): the (vertex, list-position) cursor model of Edges::constEdgeIterator - begin(), end(), operator++, operator*, operator== - enumerates exactly the "
                   "flattened adjacency lists (directed, ANY graph with size-many lists, zero vertices included) resp. their i<=j half (undirected, under the symmetric invariant), "
                   "begin()==end() iff no edge, range-for yields 0..n-1, and the users (in-degrees, adjacency matrix) are defined with the right values. Tied to /repo by running every "
-                  "small graph of all eight classes plus random histories, comparing vertex sequence, edge multiset, pre/post-increment (edge and vertex iterators) and repeated traversals.",
+                  "small graph of all eight classes plus random histories, comparing vertex sequence, edge multiset, pre/post-increment (edge and vertex iterators), repeated traversals, and begin()/end() taken from two separate edges() ranges of one graph.",
              note=TB + "The cursor abstracts std::list iterators as list positions; pre/post-increment agreement and repeatability are trivial in a pure model and are checked on the implementation only.",
              tech="Coq proof about the iterator cursor model + exhaustive small-graph correspondence", ref="DESIGN.md §6 C08"),
 })
@@ -40,7 +41,11 @@ CHECKS.update({
                   "position, with force on or off, returns Thrown OutOfRange together with exactly the state it was given; resize-to-fewer, unforced setEdgeLabel and getEdgeLabel on a "
                   "missing edge give InvalidArgument with the state unchanged; vertex-taking observers raise OutOfRange. Tied to /repo by histories interleaving valid and rejected calls "
                   "(size, size+1, UINT_MAX; every position; both flag values; out-of-range queries of every observer) under ASan+UBSan, all observers compared after every call. "
-                  "C07_path_searches_reject / C07_subgraph_rejects extend this to every path search (source and destination positions) and both subgraph functions.",
+                  "C07_path_searches_reject / C07_subgraph_rejects extend this to every path search (source and destination positions) and both subgraph functions. "
+                  "C07_codes_after_forced_calls_{directed,undirected}: on EVERY history, forced duplicates and labels forced onto missing edges included, the result code of every call "
+                  "is the one determined by the number of vertices and the presence of the pair (CodesSpec oracle, which keeps speaking about the code after forced calls), and "
+                  "C07_every_call_returns_*: the repaired models never reach undefined behaviour on any history. The two path-reconstruction entry points are also called directly "
+                  "with out-of-range (source, destination), equal or not.",
              note=TB + "Out-of-bounds reads/writes themselves are a runtime notion: the model proves 'Thrown, state unchanged'; a sanitizer abort of the harness is reported as a violation.",
              tech="Coq proof (rejected call = Thrown + identical state, all states) + differential correspondence under ASan/UBSan", ref="DESIGN.md §6 C07"),
  'C16': dict(text="Theorems C16_* (Coq), on the weak invariant kept by forced insertions: addEdge(force=true) adds exactly one copy (list multiplicity and edge count +1, hasEdge true, label "
